@@ -6,16 +6,31 @@ import RotoV.Lemmas.LowerS
 namespace RotoV.LowerS
 open RotoV.TraceSpec
 
+/-- number of expressions of a list -/
+def lenEs : Exprs → Nat
+  | .nil => 0
+  | .cons _ es => lenEs es + 1
+
+theorem lowerCtorArgs_length : ∀ (es : Exprs) (c : Nat) (code : Code) (xs : List Var) (c' : Nat),
+    lowerCtorArgs es c = some (code, xs, c') → xs.length = lenEs es
+  | .nil, c, code, xs, c', h => by simp [lowerCtorArgs] at h; obtain ⟨_, rfl, _⟩ := h; rfl
+  | .cons e es, c, code, xs, c', h => by
+    simp [lowerCtorArgs, Option.bind_eq_some_iff] at h
+    obtain ⟨ce, ve, c1, h1, cs, xs', c2, h2, _, rfl, rfl⟩ := h
+    simp [lenEs, lowerCtorArgs_length es _ cs xs' c2 h2]
+
 mutual
-/-- The two ill-typed shapes the lowering model refuses do not occur in the expression:
+/-- The three ill-typed shapes the lowering model refuses do not occur in the expression:
     a compound assignment with a comparison operator, a `match` whose patterns name a
-    variant the examinee's type does not have. -/
+    variant the examinee's type does not have, a record literal that does not name every
+    field of its type exactly once. -/
 def shapedE : Expr → Bool
   | .lit _ | .var _ | .none => true
-  | .host _ args | .call _ args | .ctor _ args | .record args | .list args => shapedEs args
+  | .host _ args | .call _ args | .ctor _ args | .list args => shapedEs args
+  | .record perm fs => permOk perm (lenEs fs) && shapedEs fs
   | .bin _ l r | .and l r | .or l r | .concat l r => shapedE l && shapedE r
-  | .not e | .neg e | .assign _ e | .ret e | .accept e | .reject e | .try e | .some e | .field e _ => shapedE e
-  | .cassign op _ e => op.isArith && shapedE e
+  | .not e | .neg e | .assign _ e | .assignF _ _ e | .ret e | .accept e | .reject e | .try e | .some e | .field e _ => shapedE e
+  | .cassign op _ e | .cassignF op _ _ e => op.isArith && shapedE e
   | .ite c t e => shapedE c && shapedB t && shapedB e
   | .if1 c t => shapedE c && shapedB t
   | .while c b => shapedE c && shapedB b
@@ -56,9 +71,11 @@ theorem lowerE_total : ∀ (e : Expr) (c : Nat), shapedE e = true → (lowerE e 
   | .ctor k args, c, h => by
     obtain ⟨⟨a, b, c1⟩, h1⟩ := Option.isSome_iff_exists.mp (lowerCtorArgs_total args c (by simpa [shapedE] using h))
     simp [lowerE, h1]
-  | .record fs, c, h => by
-    obtain ⟨⟨a, b, c1⟩, h1⟩ := Option.isSome_iff_exists.mp (lowerCtorArgs_total fs c (by simpa [shapedE] using h))
-    simp [lowerE, h1]
+  | .record perm fs, c, h => by
+    simp only [shapedE, Bool.and_eq_true] at h
+    obtain ⟨⟨a, b, c1⟩, h1⟩ := Option.isSome_iff_exists.mp (lowerCtorArgs_total fs c h.2)
+    have hl := lowerCtorArgs_length fs c a b c1 h1
+    simp [lowerE, h1, hl, h.1]
   | .list es, c, h => by
     obtain ⟨⟨a, c1⟩, h1⟩ := Option.isSome_iff_exists.mp (lowerElems_total es (.t c) (.t (c + 1)) (c + 2) (by simpa [shapedE] using h))
     simp [lowerE, h1]
@@ -94,6 +111,13 @@ theorem lowerE_total : ∀ (e : Expr) (c : Nat), shapedE e = true → (lowerE e 
   | .assign x e, c, h => by
     obtain ⟨⟨ce, ve, c1⟩, h1⟩ := Option.isSome_iff_exists.mp (lowerE_total e c (by simpa [shapedE] using h))
     simp [lowerE, h1]
+  | .assignF x i e, c, h => by
+    obtain ⟨⟨ce, ve, c1⟩, h1⟩ := Option.isSome_iff_exists.mp (lowerE_total e c (by simpa [shapedE] using h))
+    simp [lowerE, h1]
+  | .cassignF op x i e, c, h => by
+    simp [shapedE] at h
+    obtain ⟨⟨ce, ve, c1⟩, h1⟩ := Option.isSome_iff_exists.mp (lowerE_total e (c + 1) h.2)
+    simp [lowerE, h.1, h1]
   | .ret e, c, h => by
     obtain ⟨⟨ce, ve, c1⟩, h1⟩ := Option.isSome_iff_exists.mp (lowerE_total e c (by simpa [shapedE] using h))
     simp [lowerE, h1]
